@@ -139,6 +139,7 @@ def run(tier):
         else:
             ck.violation('trace-rejected model_pc=%s' % (info or {}).get('model_pc'), 'TraceAudit rejects the run of a cooperative GEX server: %s' % (
                 {k: v for k, v in (info or {}).items() if k != 'events'}), {'srv': srv, 'info': info})
+    granular_leg(ck, rnd, tier)
     for k in pick[:3]:
         ck.sample({'server': {'moduli': list(k[0]), 'style': k[1], 'openssh': k[2], 'gex': list(k[3])}, 'asked': servers[k]['asked'],
                    'reported': servers[k]['reported']})
@@ -148,3 +149,65 @@ def run(tier):
     ck.cov['exhaustive'] = (tier == 'thorough')
     ck.assumptions += ['the fake server hands out g = 1 and a modulus of exactly the selected bit length (the tool verifies neither)']
     return ck.finish()
+
+
+def granular_leg(ck, rnd, tier):
+    """-g <list | range | min:pref:max triples>: the sizes reported per algorithm are the distinct groups the server hands out for
+    the requests, in order (expected from SshAudit!Group via TLC)."""
+    import json
+    cases, argvs = [], []
+    for _ in range(40 if tier == 'quick' else 400):
+        moduli = sorted(rnd.sample(peers.ALL_MODULI, rnd.randint(1, 4)))
+        style = rnd.choice(['strict', 'roundup', 'openssh'])
+        form = rnd.choice(['list', 'range', 'triples'])
+        if form == 'list':
+            vals = [rnd.choice([512, 1024, 1536, 2048, 3072, 4096, 8192]) for _ in range(rnd.randint(1, 4))]
+            arg = ','.join(str(v) for v in vals)
+            reqs = [[v, v, v] for v in vals]
+        elif form == 'range':
+            a = rnd.choice([1024, 2048, 3072])
+            step = rnd.choice([512, 1024])
+            b = a + step * rnd.randint(1, 3)
+            if rnd.random() < 0.3:
+                a, b = b, a
+            arg = '%d-%d:%d' % (a, b, step)
+            vals = list(range(a, b + 1, step)) if a <= b else list(range(a, b - 1, -step))
+            reqs = [[v, v, v] for v in vals]
+        else:
+            reqs = []
+            for _ in range(rnd.randint(1, 3)):
+                mn = rnd.choice([512, 1024, 2048])
+                pf = mn + rnd.choice([0, 1024, 2048])
+                mx = pf + rnd.choice([0, 1024, 4096])
+                reqs.append([mn, pf, mx])
+            arg = ','.join('%d:%d:%d' % tuple(r) for r in reqs)
+        cases.append({'moduli': moduli, 'style': style, 'reqs': reqs})
+        argvs.append(arg)
+    res = tlc.run('MC_SshAudit', audit.mc_cfg('NoServers', 0), generated={'g.json': json.dumps(cases)}, env={'VERIF_GRANULAR': 'g.json'}, workers=1)
+    ck.add_tlc(res)
+    exp = [p for p in res.prints if isinstance(p, list) and len(p) == len(cases)]
+    common.require(len(exp) >= 1, 'TLC did not emit the granular expectations: %s' % res.error_text)
+    exp = exp[0]
+    scs = []
+    for c, arg in zip(cases, argvs):
+        cfg = peers.ServerCfg(banner=b'SSH-2.0-Generic_1.0', kexinit={'kex': ['curve25519-sha256', GEX256, GEX1], 'key': ['ssh-ed25519'], 'enc': ['aes128-ctr'],
+                                                                    'mac': ['hmac-sha2-256'], 'comp': ['none']},
+                              hostkeys={'ssh-ed25519': peers.ed25519_blob()}, gex={'style': c['style'], 'moduli': c['moduli']})
+        scs.append({'argv': ['-j', '-g', arg, audit.HOST], 'servers': {(audit.HOST, 22): cfg}})
+    for c, arg, e, r in zip(cases, argvs, exp, runner.run_many(scs)):
+        ck.evaluated()
+        if r.get('harness_error') or r.get('hang'):
+            raise common.Machinery('granular run failed: %r' % (r.get('harness_error') or 'hang'))
+        replay = {'server': c, 'argv': ['-g', arg], 'expected': e, 'exit': r['exit'], 'stdout': r['stdout'][-1500:]}
+        try:
+            doc = json.loads(r['stdout']) if r['stdout'].strip() else {}
+        except ValueError:
+            ck.violation('granular-json-unparsable', '-g %s: output is not JSON' % arg, replay)
+            continue
+        got = doc.get('dh-gex-modulus-size', {})
+        want = {a: list(e) for a in (GEX1, GEX256)} if e else {}
+        if got != want or r['exit'] != 0:
+            ck.violation('granular-sizes', '-g %s against moduli %r (%s): reports %r (status %r), the server hands out %r' % (arg, c['moduli'], c['style'], got, r['exit'], e), replay)
+        else:
+            ck.cov['traces_validated_against_impl'] += 1
+            ck.nontrivial(('granular', arg, tuple(c['moduli']), c['style']))
